@@ -290,10 +290,11 @@ def special(v):
 # ---- decoding -------------------------------------------------------------------------------------------------------
 
 
-def expected_matches(v, group, cls, pos):
-    """does the literal group (list of tokens) denote the python value v under dialect cls?"""
+def expected_matches(v, group, cls, pos, engine_literals=True):
+    """does the literal group (list of tokens) denote the python value v under dialect cls?
+    engine_literals=False: only ask whether the tokens are the library's inline spelling of v (C04 aligns placeholders with it)"""
     if isinstance(v, enum.Enum):
-        return expected_matches(v.value, group, cls, pos)
+        return expected_matches(v.value, group, cls, pos, engine_literals)
     if len(group) == 2 and group[0].kind == "op" and group[0].text == "-" and group[1].kind == "num":
         sign, tok = -1, group[1]
     elif len(group) == 1:
@@ -306,7 +307,8 @@ def expected_matches(v, group, cls, pos):
         if sign != 1:
             return False
         if tok.kind == "word":
-            return tok.value == ("TRUE" if v else "FALSE")
+            # T-SQL has no boolean literals: SELECT true reads "true" as a column name (bit values are written 1 / 0)
+            return tok.value == ("TRUE" if v else "FALSE") and not (cls == "mssql" and engine_literals)
         return cls == "sqlite" and tok.kind == "num" and tok.text == ("1" if v else "0")
     if v is None:
         return tok.kind == "word" and tok.value == "NULL" and sign == 1
